@@ -567,3 +567,11 @@ func altEdges(v ssa.Value) ([]ssa.Value, bool) {
 	}
 	return nil, false
 }
+
+// paramAt: the i-th parameter of fn as a value, or nil when fn has fewer (shape changed).
+func paramAt(fn *ssa.Function, i int) ssa.Value {
+	if fn == nil || i >= len(fn.Params) {
+		return nil
+	}
+	return fn.Params[i]
+}
